@@ -28,7 +28,7 @@ Open Scope N_scope.
 Definition out_material (e : entry) : N :=
   match ekey e with
   | PHmac _ _ _ | PAesCmac _ _ | PAesGcm _ | PAesGcmSiv _ | PAesCtrHmac _ _ _ _ _ | PAesSiv _
-  | PHkdfPrf _ _ | PHmacPrf _ _ | PAesCmacPrf _ => km_symmetric
+  | PHkdfPrf _ _ | PHmacPrf _ _ | PAesCmacPrf _ | PChaCha _ | PXChaCha _ | PXAesGcm _ _ => km_symmetric
   | PEcdsaPub _ _ _ _ | PRsaPkcs1Pub _ _ _ | PRsaPssPub _ _ _ _ => km_public
   | PEcdsaPriv _ _ _ _ _ => km_private
   | PFallback _ => emat e
